@@ -4,6 +4,8 @@ from hypothesis import strategies as st
 from vfw.gen import regexes as rx
 
 NAMES = ["id", "name", "a", "b", "key", "X-Val", "on", "200", "q"]
+# property names that are spelled like schema keywords: under `properties` they are names, not keywords
+NAMES += ["nullable", "x-nullable", "type", "required", "items", "readOnly", "writeOnly", "pattern", "enum", "example", "default", "minimum", "properties", "format"]
 TEXT = st.text(alphabet=st.sampled_from("abcxyzXYZ019 _-+%&=?#/.;:,é日"), max_size=6)
 SAFE_TEXT = st.text(alphabet=st.sampled_from("abcxyzXYZ019_-"), min_size=1, max_size=6)
 
